@@ -86,7 +86,10 @@ class Universe:
     def _conc(self, x):
         if isinstance(x, tuple):
             if x[0] == "ev":
-                return self.ev_id(x[1]).hex().encode()
+                n = x[1]
+                if n == "absent":          # the first id beyond the events of this universe
+                    n = len(self._pending) + 1
+                return self.ev_id(n).hex().encode()
             if x[0] == "pk":
                 return self.pubkeys[x[1] - 1].hex().encode()
             if x[0] == "addr":
@@ -216,7 +219,7 @@ def u_c09():
     long1 = b"L" * 182 + b"one"
     long2 = b"L" * 182 + b"two"
     u.add(A, 30000, 10, [["d", "x"]], clen=10)          # 1
-    u.add(A, 30000, 20, [["d", "x"]], clen=11)          # 2 newer at same address
+    u.add(A, 30000, 20, [["d", "x"], ["expiration", "1"]], clen=11)          # 2 newer at same address; NIP-40 expiration long past
     u.add(A, 30000, 20, [["d", "x"]], clen=12)          # 3 tie with 2
     u.add(A, 30000, 15, [["d", b"x\x00"]], clen=13)     # 4 d differs by a trailing NUL
     u.add(A, 30000, 15, [["d", ""]], clen=14)           # 5 empty d
@@ -225,7 +228,7 @@ def u_c09():
     u.add(B, 30000, 14, [["d", "x"]], clen=17)          # 8 other author
     u.add(A, 30001, 14, [["d", "x"]], clen=18)          # 9 other kind
     u.add(A, 10000, 10, [], clen=19)                    # 10 replaceable
-    u.add(A, 10000, 20, [], clen=20)                    # 11 replaceable newer
+    u.add(A, 10000, 20, [["expiration", "1000"]], clen=20)  # 11 replaceable newer; expired long ago
     u.add(A, 19999, 15, [], clen=21)                    # 12 replaceable boundary kind
     u.add(A, 9999, 15, [["d", "x"]], clen=22)           # 13 regular (just below)
     u.add(A, 40000, 15, [["d", "x"]], clen=23)          # 14 regular (just above the param range)
@@ -248,10 +251,26 @@ def u_c10():
     u.add(B, 5, 22, [["e", ("ev", 1)], ["e", ("ev", 4)]], clen=0)            # 8 foreign, own
     u.add(B, 5, 23, [["a", ("addr", 30000, A, "x")]], clen=0)                # 9 foreign address
     u.add(B, 5, 24, [["a", ("addr", 30000, B, "x")], ["a", ("addr", 10000, A, "")]], clen=0)  # 10 own addr, foreign addr
-    u.add(B, 5, 25, [["e", "zz"], ["a", "nonsense"], ["e", ("ev", 14)], ["e", ("ev", 1)]], clen=0)  # 11 malformed, absent, foreign
+    u.add(B, 5, 25, [["e", "zz"], ["a", "nonsense"], ["e", ("ev", "absent")], ["e", ("ev", 1)]], clen=0)  # 11 malformed, absent, foreign
     u.add(B, 5, 26, [["e", ("ev", 4)], ["a", ("addr", 30000, B, "x")]], clen=0)  # 12 all own (legit)
-    # 13: a long request: 258 effective own / absent targets, then a foreign one (fails at its 259th tag)
-    u.add(B, 5, 27, [["e", ("ev", 4)], ["a", ("addr", 30000, B, "x")]] + [["e", ("ev", 14)]] * 256 + [["e", ("ev", 1)]], clen=0)
+    u.add(A, 1059, 12, [["p", ("pk", B)]], clen=4)                             # 13 A's gift-wrap addressed to B
+    u.add(B, 5, 28, [["e", ("ev", 13)]], clen=0)                               # 14 B (the recipient, not the author) asks to delete it
+    return u.finish()
+
+
+def u_c12x():
+    """Deletion requests that fail late: after 258 effective targets, and after an effective first tag through an LMDB
+    key-size error (marker key of an own address whose d value has 480 bytes)."""
+    u = Universe("c12x", nauthors=2, nabsent=1)
+    A, B = 1, 2
+    u.add(A, 1, 10, [["t", "x"]], clen=5)                                    # 1 foreign (A)
+    u.add(B, 1, 11, [], clen=8)                                              # 2 B's own
+    u.add(B, 30000, 11, [["d", "x"]], clen=9)                                # 3 B's own param
+    # 4: 258 effective own / absent targets, then a foreign one (fails at its 259th tag)
+    u.add(B, 5, 27, [["e", ("ev", 2)], ["a", ("addr", 30000, B, "x")]] + [["e", ("ev", "absent")]] * 256 + [["e", ("ev", 1)]], clen=0)
+    # 5: all targets own, but the second one's marker key exceeds LMDB's key size
+    u.add(B, 5, 29, [["e", ("ev", 2)], ["a", ("addr", 30000, B, "k" * 480)]], clen=0)
+    u.add(B, 5, 30, [["e", ("ev", 2)]], clen=0)                              # 6 plain own deletion
     return u.finish()
 
 
@@ -275,6 +294,37 @@ def u_c11():
     return u.finish()
 
 
+def u_sz():
+    """Map-geometry universe: tagless regular events whose sizes put the end of the map just before, exactly on and just
+    after a growth-chunk boundary (dev profile: 2048-byte chunks, 8-byte header, 152-byte minimal event), an
+    ephemeral event and a multi-chunk event.  Not used for an edge cover: driven by targeted histories."""
+    u = Universe("sz", nauthors=2, nabsent=1)
+    A, B = 1, 2
+    for k in range(-10, 11):
+        u.add(A if k % 2 == 0 else B, 1, 100 + k, [], clen=1888 + k)        # 1..21: first store ends at 2048 + k
+    u.add(A, 20000, 50, [], clen=1888)                                      # 22 ephemeral, ends exactly on the boundary
+    u.add(B, 1, 60, [], clen=4096 - 152)                                    # 23 exactly two chunks long
+    u.add(B, 1, 61, [], clen=5000)                                          # 24 multi-chunk
+    u.add(A, 1, 62, [], clen=0)                                             # 25 minimal
+    return u.finish()
+
+
+def u_c11b():
+    """Deletion requests with several targets where an earlier-listed address is already covered, and addresses
+    whose d value contains the ':' separator."""
+    u = Universe("c11b", nauthors=2, nabsent=1)
+    A, B = 1, 2
+    u.add(A, 30000, 10, [["d", "u:v"]], clen=5)                                              # 1 d contains ':'
+    u.add(A, 30000, 10, [["d", "u"]], clen=6)                                                # 2 the prefix address
+    u.add(A, 5, 20, [["a", ("addr", 30000, A, "u:v")]], clen=0)                              # 3 deletes u:v
+    u.add(A, 30000, 10, [["d", "x"]], clen=7)                                                # 4
+    u.add(A, 1, 10, [], clen=8)                                                              # 5 regular
+    u.add(A, 5, 25, [["a", ("addr", 30000, A, "x")]], clen=0)                                # 6 deletes x as of 25
+    u.add(A, 5, 15, [["a", ("addr", 30000, A, "x")], ["e", ("ev", 5)], ["a", ("addr", 30000, A, "u")]], clen=0)  # 7 x (older), then 5 and u
+    u.add(A, 5, 25, [["a", ("addr", 30000, A, "x")], ["e", ("ev", 5)]], clen=0)              # 8 x (same time as 6), then 5
+    return u.finish()
+
+
 def u_c18():
     """Removal / vanish targets: authors with zero to many events across kinds; gift-wraps naming the
     author first, as a later tag, as a non-first value, and other kinds with the same p tag."""
@@ -292,6 +342,7 @@ def u_c18():
     u.add(A, 5, 30, [["e", ("ev", 1)]], clen=0)                                # 10 A deletes 1
     u.add(B, 20001, 19, [["t", "x"]], clen=1)                                  # 11 ephemeral by B
     u.add(A, 1, 20, [["e", "x"], ["q", "x"], ["t", "x"], ["-"], ["r", "y"]], clen=2)  # 12 same value under several letters; a name-only tag before another tag
+    u.add(B, 1059, 21, [["p", ("pk", C)], ["p", ("pk", A)]], clen=3)                  # 13 gift-wrap naming A in a second p tag
     return u.finish()
 
 
@@ -315,6 +366,7 @@ def u_q():
     u.add(B, 1, 10, [["t", "x"]], clen=14)                                 # 13 third event at time 10
     u.add(B, 1, 12, [["t", "x"], ["t", "x"]], clen=15)                     # 14 repeated identical tag
     u.add(A, 30000, 12, [["d", "y"], ["t", "y"]], clen=16)                 # 15 same author and kind as 7/8, other d value
+    u.add(B, 1, 1900000000, [["t", "x"]], clen=17)                         # 16 dated in the future
     u.s("zz")   # a value no event has
     u.s("w")    # a tag letter no event has
     return u.finish()
@@ -332,13 +384,15 @@ def u_c16():
     u.add(A, 30000, 10, [["d", b"\xc3\xa9\x01"]], clen=8)                           # 4 binary-ish d
     u.add(A, 5, 20, [["a", ("addr", 30000, A, b"x\x00")]], clen=0)                  # 5 marker, d ends in NUL
     u.add(A, 5, 21, [["a", ("addr", 30000, A, longd)]], clen=0)                     # 6 marker, long d
-    u.add(A, 5, 22, [["a", ("addr", 30000, A, b"\xc3\xa9\x01")], ["e", ("ev", 10)]], clen=0)  # 7 marker binary d + absent id
+    u.add(A, 5, 22, [["a", ("addr", 30000, A, b"\xc3\xa9\x01")], ["e", ("ev", 12)]], clen=0)  # 7 marker binary d + absent id
     u.add(A, 5, 23, [["a", ("addr", 10000, A, "")]], clen=0)                        # 8 marker, empty d
-    u.add(B, 1, 11, [["t", "x"]], clen=2000)                                        # 9 large regular event
+    u.add(B, 1, 11, [["t", "x"], ["expiration", "5"]], clen=2000)                   # 9 large regular event, NIP-40 expiration long past
+    u.add(A, 30000, 10, [["d", "x:y"]], clen=3)                                     # 10 d containing the address separator
+    u.add(A, 5, 24, [["a", ("addr", 30000, A, "x:y")], ["a", ("addr", 30000, A, ":")]], clen=0)  # 11 markers for d = "x:y" and ":"
     return u.finish()
 
 
-CURATED = dict(c16=u_c16, core=u_core, c09=u_c09, c10=u_c10, c11=u_c11, c18=u_c18, q=u_q)
+CURATED = dict(c16=u_c16, c11b=u_c11b, c12x=u_c12x, sz=u_sz, core=u_core, c09=u_c09, c10=u_c10, c11=u_c11, c18=u_c18, q=u_q)
 
 
 # ------------------------------------------------------------------------------------------------
